@@ -296,6 +296,108 @@ func TestVerifC04(t *testing.T) {
 		}
 	}
 
+	// (2d) blocks whose CONTENT has a vanishing aggregate: the sixteen message words sum to 0 mod 2^32, XOR to 0,
+	// all words equal, byte sums / byte XOR zero - in data blocks and in the final PADDED block (the message is
+	// solved so that message bytes, the 0x80 marker and the length field together cancel). A shortcut keyed
+	// on such an aggregate ("all-zero block") is hit by them and by nothing random.
+	{
+		be := func(b []byte) uint32 { return uint32(b[0])<<24 | uint32(b[1])<<16 | uint32(b[2])<<8 | uint32(b[3]) }
+		put := func(b []byte, v uint32) { b[0], b[1], b[2], b[3] = byte(v>>24), byte(v>>16), byte(v>>8), byte(v) }
+		nAgg := 0
+		judge := func(kind string, msg []byte) {
+			for _, split := range []int{0, len(msg) / 2, len(msg)} {
+				h := New()
+				h.Write(msg[:split])
+				h.Write(msg[split:])
+				got := h.Sum(nil)
+				one := SumSM3(msg)
+				if want := ref.SM3(msg); !bytes.Equal(got, want) || !bytes.Equal(one[:], want) {
+					r.Violation("digest-wrong-on-block-with-vanishing-aggregate:"+kind, hk.D{"msg": hk.Hex(trunc(msg)), "msglen": len(msg), "split": split, "got": hk.Hex(got), "want": hk.Hex(want)})
+					return
+				}
+			}
+			nAgg++
+		}
+		for rep := 0; rep < hk.N(40, 400); rep++ {
+			pre := rng.Bytes(64 * rng.Intn(3))
+			// (i) a full data block with a vanishing aggregate, at every word position as the solved word
+			for _, kind := range []string{"word-sum=0", "word-xor=0", "all-words-equal", "byte-sum=0", "byte-xor=0", "half-sums-cancel"} {
+				blk := rng.Bytes(64)
+				free := rng.Intn(16)
+				switch kind {
+				case "word-sum=0", "word-xor=0":
+					var acc uint32
+					for i := 0; i < 16; i++ {
+						if i == free {
+							continue
+						}
+						if kind == "word-sum=0" {
+							acc += be(blk[4*i:])
+						} else {
+							acc ^= be(blk[4*i:])
+						}
+					}
+					if kind == "word-sum=0" {
+						put(blk[4*free:], -acc)
+					} else {
+						put(blk[4*free:], acc)
+					}
+				case "all-words-equal":
+					for i := 1; i < 16; i++ {
+						copy(blk[4*i:], blk[:4])
+					}
+				case "byte-sum=0", "byte-xor=0":
+					var acc byte
+					for i := 0; i < 63; i++ {
+						if kind == "byte-sum=0" {
+							acc += blk[i]
+						} else {
+							acc ^= blk[i]
+						}
+					}
+					if kind == "byte-sum=0" {
+						blk[63] = -acc
+					} else {
+						blk[63] = acc
+					}
+				default:
+					for i := 0; i < 8; i++ {
+						put(blk[4*(8+i):], -be(blk[4*i:]))
+					}
+				}
+				judge(kind+":data-block", append(append(append([]byte{}, pre...), blk...), rng.Bytes(rng.Intn(70))...))
+			}
+			// (ii) the final padded block cancels: l message bytes (4 <= l <= 55) + 0x80 + zeros + 64-bit bit length
+			for _, l := range []int{4, 5, 7, 8, 31, 32, 52, 55} {
+				tail := rng.Bytes(l)
+				total := uint64(len(pre)+l) * 8
+				var blk [64]byte
+				copy(blk[:], tail)
+				blk[l] = 0x80
+				for i := 0; i < 8; i++ {
+					blk[56+i] = byte(total >> (8 * uint(7-i)))
+				}
+				for _, kind := range []string{"word-sum=0", "word-xor=0"} {
+					var acc uint32
+					for i := 1; i < 16; i++ {
+						if kind == "word-sum=0" {
+							acc += be(blk[4*i:])
+						} else {
+							acc ^= be(blk[4*i:])
+						}
+					}
+					if kind == "word-sum=0" {
+						put(blk[:4], -acc)
+					} else {
+						put(blk[:4], acc)
+					}
+					judge(kind+":padded-final-block", append(append([]byte{}, pre...), blk[:l]...))
+				}
+			}
+		}
+		r.EvalN("content:vanishing-aggregate", nAgg)
+	}
+
 	// (3) through io.Copy / io.Writer plumbing, the way callers use hash.Hash.
 	for i := 0; i < hk.N(300, 3000); i++ {
 		n := rng.Intn(5000)
